@@ -84,7 +84,7 @@ func indexingCheck(prop string, rejectAlwaysAllowed bool) func(env *core.Env, ci
 func init() {
 	core.Register(&core.Prop{
 		ID:          "C04",
-		Rule:        "rapid-generated programs over one fixed array [N]T (N 1..6, T in i32/i64/u8/i16/u64) with two canary variables declared around it; 3-10 statements among: reads and writes (=, +=, -=) through an index that is a literal (also negative / just out of range), a const, a never-reassigned let, a let reassigned before or after the access or only in a branch, arithmetic on those, a for-range loop variable, or a parameter of a helper function; copies of the array with writes to the copy; finally a dump of all elements, the canaries and the index variable. Oracle: reference interpreter (index value at the moment of execution, negative values from the end, panic outside [-N, N)); a compile-time rejection is allowed (counted), an accepted program must print exactly the interpreter's lines and panic exactly when it does. non-trivial = accepted and at least one index is not a literal; distinct = program text",
+		Rule:        "rapid-generated programs over one fixed array [N]T (N 1..6, T in i32/i64/u8/i16/u64) with two canary variables declared around it; 3-10 statements among: reads and writes (=, +=, -=) through an index that is a literal (also negative / just out of range), a const, a never-reassigned let, a let reassigned before or after the access or only in a branch, arithmetic on those, a for-range loop variable, or a parameter of a helper function; function literals that read or write arr[wj] through a captured variable wj of type i32 / i64 / u32 / u64 / i128 / u128 that is reassigned afterwards (in range, or 2^31 / 2^32 away, or in the all-ones region of its type); copies of the array with writes to the copy; finally a dump of all elements, the canaries and the index variable. Oracle: reference interpreter (index value at the moment of execution, negative values from the end, panic outside [-N, N)); a compile-time rejection is allowed (counted), an accepted program must print exactly the interpreter's lines and panic exactly when it does. non-trivial = accepted and at least one index is not a literal; distinct = program text",
 		Gen:         indexingGen("fixed"),
 		New:         func() any { return &progCase{} },
 		Check:       indexingCheck("C04", true),
